@@ -306,3 +306,28 @@ Example wf_examples :
   map (fun s => wf (S_ s)) ["1_0"; "A00a0"; "a0A00"; ""; "     "; "-"; "1 2"; "+12"; "1.5"; "12-"; "--1"; "!NotOk"]%string
   = repeat false 12.
 Proof. vm_compute. split; reflexivity. Qed.
+
+(* ---------- padding invariance for EVERY string (well-formed or not) ---------- *)
+Lemma rstrip_lstrip_app_spaces s k : rstrip (lstrip (s ++ spaces k)) = rstrip (lstrip s).
+Proof.
+  induction s as [|c r IH].
+  - cbn [app lstrip]. rewrite <- (app_nil_r (spaces k)), lstrip_spaces. reflexivity.
+  - cbn [app lstrip]. destruct (is_space c); [exact IH|].
+    change (c :: r ++ spaces k) with ((c :: r) ++ spaces k). apply rstrip_app_spaces.
+Qed.
+
+Lemma strip_padding_irrelevant k1 k2 s : strip (spaces k1 ++ s ++ spaces k2) = strip s.
+Proof. unfold strip. rewrite lstrip_spaces. apply rstrip_lstrip_app_spaces. Qed.
+
+Theorem decode_padding_irrelevant k1 k2 s : decode (spaces k1 ++ s ++ spaces k2) = decode s.
+Proof. unfold decode. rewrite strip_padding_irrelevant. reflexivity. Qed.
+
+(* ---------- the encoding is injective on the representable range ---------- *)
+Corollary encode_injective w' n1 n2 : in_range w' n1 -> in_range w' n2 ->
+  encode w' n1 = encode w' n2 -> n1 = n2.
+Proof.
+  intros H1 H2 E.
+  pose proof (decode_encode_all w' 0 0 n1 H1) as D1.
+  pose proof (decode_encode_all w' 0 0 n2 H2) as D2.
+  rewrite E in D1. rewrite D1 in D2. injection D2 as ->. reflexivity.
+Qed.
